@@ -10,6 +10,7 @@ import (
 	"bufio"
 	"fmt"
 	"os"
+	"time"
 )
 
 func main() {
@@ -31,6 +32,25 @@ func main() {
 }
 
 var commands = map[string]func([]string){}
+
+// guarded runs one case with a watchdog: a case that does not return within the limit is reported
+// as a hang and the process exits with 3 (a goroutine is stuck in the engine; the orchestrator
+// restarts a worker for the remaining cases).
+func guarded(limit time.Duration, run func() Result, onHang func() Result) (Result, bool) {
+	ch := make(chan Result, 1)
+	go func() { ch <- run() }()
+	select {
+	case r := <-ch:
+		return r, false
+	case <-time.After(limit):
+		return onHang(), true
+	}
+}
+
+func hangResult(prop, key string, tags []string, src string) Result {
+	return Result{Prop: prop, Key: key, Tags: tags, Pass: false, Src: src,
+		Fails: []Fail{{Run: "", Why: "hang", Got: "no result within the time limit", Src: src}}}
+}
 
 func stdinLines() *bufio.Scanner {
 	sc := bufio.NewScanner(os.Stdin)
